@@ -30,3 +30,17 @@ package base
 //@   arith int
 //@   requires t != nil && t.Runtime != nil && goFuncPre(t, c) && len(c.args) == 1
 //@   modifies everything()
+
+// C06: load gives back the memory it charged for the chunk once: whatever the
+// way out - reader error, bad reader result, compile error, success - at most
+// one release is made for the bytes read (ghost(released) counts the releases
+// made by this function; a second one would credit the context with memory it
+// never returned).
+//@ func load
+//@   prop C06 C04
+//@   arith int
+//@   requires t != nil && t.Runtime != nil && c != nil && c.GoFunction != nil && c.next != nil && 0 <= c.nArgs && c.nArgs <= len(c.args) && len(c.args) == 4
+//@   modifies everything()
+//@   exits ContextTerminationError
+//@   loop 1: invariant ghost(released) == old(ghost(released))
+//@   ensures ghost(released) <= old(ghost(released)) + 1
